@@ -172,6 +172,10 @@ func genCommon(t *rapid.T, mode string) Case {
 	c := Case{Mode: mode}
 	c.Opts = genOpts(t)
 	txt, nlines := genText(t, c.Opts)
+	if rapid.IntRange(0, 11).Draw(t, "empty-input-in-its-literal-form") == 0 {
+		txt, nlines = "", 0
+		c.Empty = true
+	}
 	c.Text = kit.BStr(txt)
 	if c.Opts.Skip < 0 { // non-default option set: skipped lines 0 ... n+2
 		c.Opts.Skip = 0
@@ -452,6 +456,9 @@ func Classify(c Case) (bool, []string) {
 	}
 	if c.Chunk > 0 {
 		add("variant:chunked-stream")
+	}
+	if c.Empty && string(c.Text) == "" {
+		add("empty input as http.NoBody / nil slices")
 	}
 	if c.SinkFail > 0 && c.Mode != "agree" {
 		add("the byte sink refuses writes beyond a limit")
